@@ -151,6 +151,8 @@ func structureKey(n *wire.N) string {
 // not seen before: every field of every kind, in every optional-member combination that introduces
 // a field, ends up in at least one base under every root kind it occurs under.
 type baseSelector struct {
+	// skip, when set, excludes fields from the variation (by the node that holds them)
+	skip  func(node *wire.N) bool
 	seen  map[string]bool
 	bases []*wire.N
 	fresh []map[string]bool // per base: the features it was chosen for
@@ -167,7 +169,9 @@ func (s *baseSelector) vary(seed int64, expired func() bool, f func(t *wire.N, w
 		}
 		fresh := s.fresh[i]
 		corpus.VariationsOf(base, func(t *wire.N) []wire.Mark { _, m := wire.Encode(t); return m }, seed,
-			func(node *wire.N, field string) bool { return fresh[featureKind(node)+"."+field] },
+			func(node *wire.N, field string) bool {
+				return fresh[featureKind(node)+"."+field] && (s.skip == nil || !s.skip(node))
+			},
 			func(t *wire.N, what string) { n++; f(t, what) })
 	}
 	return n, true
